@@ -12,8 +12,9 @@ the walk does not stop at the first failing node.
 namespace ExprModel
 namespace Opt
 
-/-- places where the unchanged optimizer deviates from property C02, as switches.
-    `false` everywhere = the code as it is; `true` = the proposed repair is in place. -/
+/-- places where the optimizer deviated from property C02 at the pinned snapshot, as switches.
+    `true` = the repair is in place (what /repo does since the `fix:` commits f3d7630, 072d9f0, 9249c3a,
+    69d5a9a and d5aa4cc); `false` = the code as it was (kept for the witnesses). -/
 structure Flags where
   /-- (#3) ast.Walk descends into `SliceNode.Node` (as is: only From/To are walked) -/
   walkSliceNode : Bool := false
@@ -30,10 +31,13 @@ structure Flags where
   constExprConvert : Bool := false
   deriving Repr, DecidableEq, Inhabited
 
-def Flags.asIs : Flags := {}
-def Flags.repaired : Flags :=
+/-- the code as it is now: every repair in place -/
+def Flags.asIs : Flags :=
   { walkSliceNode := true, inArrayStrGuard := true, inRangeKindGuard := true, inRangeSimpleLeft := true,
     foldPlainOnly := true, constExprConvert := true }
+/-- the code as it was before the `fix:` commits -/
+def Flags.asWas : Flags := {}
+abbrev Flags.repaired : Flags := Flags.asIs
 
 /-- the visitor's fields -/
 structure St where
